@@ -572,8 +572,28 @@ REG["math.inf"] = Sym(z3.Real("INF"))
 
 
 class DType:
+    _pyvc_native = True
+
     def __init__(self, name, kind):
         self.name, self.kind = name, kind
+
+    def __eq__(self, other):
+        # element types are compared by kind (float32 / float64 are both "real" in this value domain)
+        if isinstance(other, DType):
+            return self.kind == other.kind
+        if isinstance(other, str):
+            try:
+                return _dt(other) == self.kind
+            except Unsupported:
+                return False
+        return NotImplemented
+
+    def __ne__(self, other):
+        r = self.__eq__(other)
+        return r if r is NotImplemented else not r
+
+    def __hash__(self):
+        return hash(self.kind)
 
     def __call__(self, x=0):
         if isinstance(x, SArr):
@@ -1375,6 +1395,15 @@ def np_reshape(a, shape):
     f = a.snapshot()
     src_shape = a.shape
 
+    # (n, ...) -> (n, -1): row-major flattening of all but the first axis (numpy semantics, trusted).  The flat index
+    # arithmetic (division by symbolic extents) is kept, and the source is recorded as ghost state so that contracts
+    # can speak about the un-flattened array
+    if len(shape) == 2 and len(src_shape) > 2 and A._same_dim(shape[0], src_shape[0]):
+        GHOST.setdefault("flatten", []).append((None, a))
+        _flat_pending = True
+    else:
+        _flat_pending = False
+
     # Special case used by bin_image: (n0*b0, n1*b1, ...) -> (n0, b0, n1, b1, ...): splitting each axis
     # in two is exact without nonlinear flat-index arithmetic: src[a] = idx[2a]*shape[2a+1] + idx[2a+1]
     if len(shape) == 2 * len(src_shape):
@@ -1402,7 +1431,10 @@ def np_reshape(a, shape):
             src.append(V.arith("//", flat, s))
             flat = V.arith("%", flat, s)
         return f(tuple(src))
-    return SArr(shape, fn, a.dtype)
+    res = SArr(shape, fn, a.dtype)
+    if _flat_pending:
+        GHOST["flatten"][-1] = (res, a)
+    return res
 
 
 REG["numpy.reshape"] = np_reshape
